@@ -508,6 +508,26 @@ func (f *Fixture) DrainToExit(q string, max time.Duration) (string, error) {
 	return "", fmt.Errorf("queue %s: worker did not exit within %s", q, max)
 }
 
+// WalkToTop walks a worker that is parked at q.handled through result application back to the top of its loop.
+func (f *Fixture) WalkToTop(q string) error {
+	c := f.Q[q]
+	if !c.Release() {
+		return fmt.Errorf("queue %s: cannot release at q.handled", q)
+	}
+	for _, want := range []string{"q.apply", "q.top"} {
+		ev := c.Wait(3 * time.Second)
+		if ev.Kind != "gate" || ev.Gate != want {
+			return fmt.Errorf("queue %s: expected gate %s, got %v", q, want, ev)
+		}
+		if want != "q.top" {
+			if !c.Release() {
+				return fmt.Errorf("queue %s: cannot release at %s", q, want)
+			}
+		}
+	}
+	return nil
+}
+
 // WaitHandler waits for the handler of q to return (no gate walking).
 func (f *Fixture) WaitHandlerReturn(q string, max time.Duration) (string, error) {
 	ev := f.Q[q].Wait(max)
